@@ -145,7 +145,8 @@ struct TmrRun {
     }
 
     Verdict run() {
-        NodeCfg cfg; cfg.freq = (uint32_t)plan.c("freq", 1000); cfg.tmrNum = (uint16_t)plan.c("tmrnum", 4); cfg.strict = !preemptive; if (cfg.tmrNum < 1) cfg.tmrNum = 1;
+        NodeCfg cfg; cfg.freq = (uint32_t)plan.c("freq", 1000); cfg.tmrNum = (uint16_t)plan.c("tmrnum", 4); bool lagged = !preemptive && plan.c("lag", 0) != 0; cfg.strict = !preemptive && !lagged; if (cfg.tmrNum < 1) cfg.tmrNum = 1;   // lagged (C07): no preemption, but COTmrProcess is its own operation and may come any number of ticks late
+        if (lagged) { cov.hit("F13-processing-lags-behind-ticks"); }
         std::vector<ObjSpec> d; add_mandatory(d, 1);
         w.verbose = verbose;
         w.build(0, cfg, d); w.init(0);
@@ -159,9 +160,9 @@ struct TmrRun {
             if (o.k == "create") { do_create((uint32_t)o.arg(0), (uint32_t)o.arg(1), (int)o.arg(2), o.arg(3)); }
             else if (o.k == "delete") { int64_t r = o.arg(0); int id; if (r < 0) id = r == -1 ? -1 : r == -2 ? (int)maxN : r == -3 ? 32767 : (int)(-r % 40); else if (acts.empty()) id = (int)(r % (int64_t)maxN); else id = acts[(size_t)(r % (int64_t)acts.size())].id; do_delete_id(id); }
             else if (o.k == "tick") { do_tick((uint64_t)o.arg(0)); }
-            else if (o.k == "process") { if (preemptive) do_process(); }
+            else if (o.k == "process") { if (preemptive || lagged) { promote(); int ne = 0; std::set<uint64_t> due; for (auto &a : acts) if (a.st == A_ELAPSED) { ne++; due.insert(a.due); } if (lagged && due.size() > 1) { cov.hit("process-after-several-elapsed-events"); nontrivial = true; } do_process(); } }
             else if (o.k == "reinit") {   // the application stops the node and initialises it again on the same (used, not zeroed) memory: an empty pool of full capacity
-                if (preemptive) continue; w.cur = 0; CONodeStop(w.N(0)); w.init(0); acts.clear(); liveById.assign(maxN, -1); cov.hit("reinit-on-used-memory"); if (CONodeGetErr(w.N(0)) != CO_ERR_NONE) { /* not a timer matter */ } }
+                if (preemptive || lagged) continue; w.cur = 0; CONodeStop(w.N(0)); w.init(0); acts.clear(); liveById.assign(maxN, -1); cov.hit("reinit-on-used-memory"); if (CONodeGetErr(w.N(0)) != CO_ERR_NONE) { /* not a timer matter */ } }
             else if (o.k == "conv") { conv((uint16_t)o.arg(0), o.arg(1) ? CO_TMR_UNIT_100US : CO_TMR_UNIT_1MS); }
             if (w.fatal) fail("fatal", "fatal error callback");
             if (S().lockUnbalanced) fail("lock/unbalanced", "unlock without lock");
@@ -179,6 +180,7 @@ struct TmrRun {
             // one-shots still pending fire exactly at their due tick
             for (int round = 0; round < 6 && v.ok; round++) { uint64_t next = ~0ull; for (auto &a : acts) if (a.st == A_PENDING && a.period == 0 && a.due < next) next = a.due; if (next == ~0ull) break; if (next - S().now > (1ull << 33)) break; w.tick(0, next - S().now); do_process(); if (v.ok) conservation("drain"); }
         }
+        if (v.ok && lagged) { opi = (int)plan.ops.size(); do_process(); promote(); for (auto &a : acts) if (a.st == A_ELAPSED && v.ok) fail("drain/lost", "elapsed action not processed by the closing processing step"); if (v.ok) conservation("closing processing step"); }
         cov.hit("preempt-fired", w.ppFired);
         for (auto &a : acts) if (a.runs > 1) { cov.hit("periodic-rearmed"); break; }
         if (acts.size() >= 2) nontrivial = true;
@@ -212,7 +214,8 @@ const std::vector<int64_t> TVALS = {0, 1, 1, 2, 2, 3, 3, 5, 7, 4, 6, 10, 1000, 0
 Plan gen_tmr(Rng &r, bool thorough, bool preemptive) {
     Plan p; p.cfg["freq"] = r.pick(FREQS); p.cfg["tmrnum"] = r.chance(1, 3) ? r.range(1, 3) : r.range(1, 16);
     int len = (int)r.range(3, thorough ? 60 : 30); int handles = 0;
-    std::vector<int> wts = preemptive ? std::vector<int>{30, 20, 25, 20, 0} : std::vector<int>{35, 20, 35, 0, 10};
+    bool lag = !preemptive && r.chance(1, 4); if (!preemptive) p.cfg["lag"] = lag;
+    std::vector<int> wts = preemptive ? std::vector<int>{30, 20, 25, 20, 0} : lag ? std::vector<int>{30, 22, 30, 12, 6} : std::vector<int>{35, 20, 35, 0, 10};
     for (int i = 0; i < len; i++) {
         Op o; int k = r.weighted(wts);
         if (k == 0) { int64_t st = r.pick(TVALS), cy = r.chance(1, 2) ? 0 : r.pick(TVALS); if (r.chance(1, 10)) st = 0;
